@@ -1206,10 +1206,11 @@ def sc_multi(case, res):
                 continue
             tk = not neg["cnct"]
             conns.append(dict(c=c, neg=neg, inf=RefInflater(neg["smwb"], neg["snct"]), ref=RefDeflater(neg["cmwb"], tk, 6, 0, style="sync"), k=k, n=0))
-        if len(conns) < 2:
+        if len(conns) < (1 if p.get("reopen") else 2):
             res.stats["multi_too_few_connections"] += 1
             return
-        pool = [make_payload(rng, rng.choice(["text", "json", "repetitive"]), rng.choice([0, 8, 40, 120, 300, 900, 2000, 2100, 5000])) for _ in range(4)]
+        pool = [make_payload(rng, rng.choice(["text", "json", "repetitive", "random", "random"]), rng.choice([0, 8, 40, 120, 300, 600, 900, 2000, 2100, 5000])) for _ in range(4)]
+        multi_offers = [{}, {"snct": True}, {"smwb": "9"}, {"smwb": "12", "snct": True}, {"cnct": True}, {"cmwb": "10"}, {"smwb": "15"}, {"smwb": "10"}, {"cmwb": "9", "smwb": "9"}]
 
         def keyfn(cls, pl):
             return "multi-connection:" + cls
@@ -1220,6 +1221,25 @@ def sc_multi(case, res):
             return s2c_messages(res, cn["c"], cn["neg"], [(cls, pl)], p["kind"], p["level"], "multi", keyfn, cn["inf"])
         for step in range(p.get("steps", 14)):
             r = rng.random()
+            if p.get("reopen") and rng.random() < 0.2:
+                # one connection ends and another one, with other parameters, takes its place: whatever the process keeps of
+                # the old one (buffers, compressor state) must not show in the new one's streams
+                cn = rng.choice(conns)
+                e = offer_for(rng.choice(multi_offers))
+                holder["shape"] = "multi-reopen"
+                c = Conn(res, holder, case["bin"], p["level"], [e["text"]], shape, share=first, slot=cn["k"])
+                if not check_handshake(res, c, p["level"], e["text"]):
+                    return
+                viol, neg = judge_negotiation(p["level"], [e], c.headers)
+                res.viol.extend(viol)
+                conns.remove(cn)
+                res.stats["multi_reopened"] += 1
+                if neg is not None:
+                    conns.append(dict(c=c, neg=neg, inf=RefInflater(neg["smwb"], neg["snct"]), ref=RefDeflater(neg["cmwb"], not neg["cnct"], 6, 0, style="sync"), k=cn["k"], n=0))
+                    res.sigs.add(("multi-reopen", p["level"], cn["neg"]["smwb"], neg["smwb"], cn["neg"]["cmwb"], neg["cmwb"]))
+                if not conns:
+                    return
+                continue
             if r < 0.55:
                 # the same payload to every connection, in varying order; often one that was broadcast before
                 pl = rng.choice(pool) if rng.random() < 0.7 else make_payload(rng, "text", rng.choice([30, 200, 1500]))
@@ -1348,6 +1368,11 @@ def gen_cases(tier, seed):
         add("multi", fixed=det, level=level, kind="t", offers=[{}, {"snct": True}, {"smwb": "9"}], steps=12)
     for i in range(1500 if thorough else 60):
         add("multi", level=rng.choice((1, 2, 3)), kind=rng.choice("tb"), offers=[rng.choice(multi_offers) for _ in range(rng.choice([2, 2, 3, 4]))], steps=rng.choice([8, 14, 20]))
+    # ... and one after the other: connections end and are replaced by connections with other parameters
+    for level in (1, 2, 3):
+        add("multi", fixed=("multi-reopen-witness", level), level=level, kind="b", offers=[{}, {"smwb": "9"}], steps=30, reopen=True)
+    for i in range(1500 if thorough else 60):
+        add("multi", level=rng.choice((1, 2, 3)), kind=rng.choice("tb"), offers=[rng.choice(multi_offers) for _ in range(rng.choice([1, 2, 3]))], steps=rng.choice([14, 24, 40]), reopen=True)
 
     # --- c2s
     def c2s_payloads(frag):
